@@ -184,6 +184,11 @@ def meta_items(meta):
     return out
 
 
+_DW = "__import__('dataclass_wizard')."
+_V1 = "__import__('dataclass_wizard.v1', fromlist=['AliasPath'])."
+_TP = "__import__('typing')."
+
+
 def cls_src(t, defs):
     info = t['info']
     ftys = dict((n, ft) for n, ft in t['ftys'])
@@ -202,6 +207,10 @@ def cls_src(t, defs):
             lines.append('        pass')
     for f in info['fields']:
         ann = q('CatchAll') if f.get('catch_all') else ty_src(ftys[f['name']], defs)
+        path = f.get('path')      # optional: {'keys': 'a.b' | ['a', 'b'], 'style': 'path_field' | 'keypath_ann' | 'aliaspath' | 'aliaspath_ann'}
+        if path and path['style'].endswith('_ann'):
+            fn = (_DW + 'KeyPath') if path['style'] == 'keypath_ann' else (_V1 + 'AliasPath')
+            ann = f'{_TP}Annotated[{ann}, {fn}({path["keys"]!r})]'
         opts = []
         d = f.get('dflt')
         if d is not None:
@@ -214,7 +223,10 @@ def cls_src(t, defs):
         if f.get('kw_only'):
             opts.append('kw_only=True')
         lk = f.get('load_keys') or []
-        if lk or f.get('dump_skip'):
+        if path and not path['style'].endswith('_ann'):
+            fn = (_DW + 'path_field') if path['style'] == 'path_field' else (_V1 + 'AliasPath')
+            rhs = f'{fn}({", ".join([repr(path["keys"])] + opts)})'
+        elif lk or f.get('dump_skip'):
             keys = repr(lk[0]) if len(lk) == 1 else repr(tuple(lk)) if lk else repr(f['name'])
             extra = []
             if f.get('dump_all'):
@@ -464,6 +476,8 @@ def enc_py(v, built: Built | None = None, full_inst=True, sort_sets=False):
         return ['td', td_us(v)]
     if dataclasses.is_dataclass(v) and not isinstance(v, type):
         name = tv.__name__
+        if built is not None and getattr(built, 'bind_of', None):     # opt-in: classes that share a __name__ are told apart by their binding
+            name = built.bind_of.get(tv, name)
         fields = []
         for f in dataclasses.fields(v):
             if hasattr(v, f.name):
